@@ -71,11 +71,29 @@ def build_component(comp, workdir, extra_defines=()):
     t0 = time.time()
     if cfg.get('typename_pass'):
         cfg['typename_fixes'] = typename_pass(cfg, workdir)
-    text, em = cxxemit.lower_component(cfg, contracts)
+    # A loop that has no invariant (the code changed: contracts are keyed by function and loop ordinal) cannot be proved.
+    # Instead of giving up at once the function is lowered without the requirement and its harnesses are explored with a
+    # small unwinding bound, WITHOUT unwinding assertions: an under-approximation.  A failed obligation found that way
+    # is a real execution of the lowered code against its contract and is reported; finding none proves nothing and the
+    # result is UNDECIDED (exit 2).  Never taken on a tree whose loops all have contracts.
+    cfg['bounded_functions'] = []
+    for _ in range(6):
+        try:
+            text, em = cxxemit.lower_component(cfg, contracts)
+            break
+        except LowerError as e:
+            m = re.match(r'^(\S+): loop \d+ has no loop contract', str(e))
+            if not m or m.group(1) not in contracts or m.group(1) in cfg['bounded_functions']:
+                raise
+            contracts[m.group(1)]['require_loop_contracts'] = False
+            cfg['bounded_functions'].append(m.group(1))
+    else:
+        raise ToolFailure('too many functions with loops that have no loop contract')
     post = ''.join('#include "%s"\n' % p for p in cfg['postlude'])
     cfile = os.path.join(workdir, 'lowered.c')
     with open(cfile, 'w') as fh:
         fh.write(text + post)
+    cfg['mutable_globals'] = list(em.mutable_globals)
     with open(os.path.join(workdir, 'names.txt'), 'w') as fh:
         for c in em.order:
             q, f, l = em.func_loc[c]
@@ -143,7 +161,10 @@ def run_harness(h, cfile, workdir, cfg, tier='quick'):
         cmd = ['goto-instrument', '--no-malloc-may-fail', '--dfcc', name]
         if h['enforce']:
             cmd += ['--enforce-contract', h['enforce']]
-        for r in h['replace']:
+        repl = list(h['replace'])
+        if h['enforce'] and h['enforce'] in cfg.get('rec_twin', []) and h['enforce'] + '__rec' not in repl:
+            repl.append(h['enforce'] + '__rec')       # a function that became recursive calls its own contract twin
+        for r in repl:
             cmd += ['--replace-call-with-contract', r]
         if h['loopc']:
             cmd += ['--apply-loop-contracts']
@@ -157,9 +178,27 @@ def run_harness(h, cfile, workdir, cfg, tier='quick'):
         with open(os.path.join(hd, 'instrument.log'), 'w') as fh:
             fh.write(out + err)
         target = gb2
+    elif cfg.get('mutable_globals'):
+        # no contract instrumentation (which starts from arbitrary statics anyway): the program's own mutable statics are
+        # arbitrary when an operation starts, not in their initial state
+        cmd = ['goto-instrument', '--nondet-static-matching', '.*[^A-Za-z0-9_](%s)$' % '|'.join(re.escape(g) for g in cfg['mutable_globals']), gb1, gb2]
+        res['cmds'].append(' '.join(cmd))
+        rc, out, err, _ = sh(cmd, timeout=600, mem_gb=8)
+        if rc != 0:
+            res['detail'] = 'goto-instrument --nondet-static-matching failed:\n' + (out + err)[-3000:]
+            res['wall_s'] = time.time() - t0
+            return res
+        target = gb2
     cmd = ['cbmc', '--sat-solver', 'cadical', '--no-malloc-may-fail'] + CBMC_CHECKS
     if h['unwind']:
         cmd += ['--unwind', str(h['unwind']), '--unwinding-assertions']
+    elif cfg.get('bounded_functions'):
+        # only the loops of the functions that lost their invariant; every other loop keeps its contract / its own bound
+        rc_, out_, err_, _ = sh(['goto-instrument', '--show-loops', target], timeout=120, mem_gb=8)
+        ids = [m for m in re.findall(r'^Loop (\S+):', out_, re.M) if m.rsplit('.', 1)[0].replace('_wrapped_for_contract_checking', '') in cfg['bounded_functions']]
+        if ids:
+            cmd += ['--unwindset', ','.join('%s:3' % i for i in ids), '--no-unwinding-assertions']
+        res['bounded_unwind'] = 3 if ids else 0       # 0: this harness does not contain such a loop, its result is a full proof
     cmd += [f for f in (h['flags'] + cfg.get('cbmc_flags', [])) if f]
     cmd += [target]
     res['cmds'].append(' '.join(cmd))
@@ -216,6 +255,10 @@ def run_harness(h, cfile, workdir, cfg, tier='quick'):
             continue
         if st == 'SUCCESS':
             res['discharged'] += 1
+        elif res.get('bounded_unwind') and ' is assignable' in desc and \
+                (r.get('sourceLocation', {}).get('function') or '').replace('_wrapped_for_contract_checking', '') in cfg.get('bounded_functions', []):
+            # frame checks inside a loop that has no contract: dfcc's inferred loop frame is not a statement about the code
+            res.setdefault('ignored_bounded', []).append(desc)
         else:
             loc = r.get('sourceLocation', {})
             res['failed'].append({'property': r.get('property'), 'description': desc, 'status': st,
@@ -249,6 +292,10 @@ def run_harness(h, cfile, workdir, cfg, tier='quick'):
         res['detail'] = 'vacuity canary not reachable: preconditions are contradictory or the function cannot return'
     elif res['obligations'] == 0:
         res['detail'] = 'no obligations generated'
+    elif res.get('bounded_unwind'):
+        res['status'] = 'error'
+        res['detail'] = ('function(s) %s contain a loop for which /verif/contracts has no invariant; exploring up to %d iterations '
+                         'found no failed obligation, which proves nothing' % (', '.join(cfg['bounded_functions']), res['bounded_unwind']))
     else:
         res['status'] = 'pass'
     return res
